@@ -52,7 +52,7 @@ def cases(tier, seed):
 
 def targets(tier):
     k = 1 if tier == "quick" else 10
-    t = {"ensemble_calls": 8000 * k, "member_states_compared": 20000 * k, "histories_members_drift_at_different_steps": 60 * k,
+    t = {"ensemble_calls": 8000 * k, "member_states_compared": 20000 * k, "histories_members_drift_at_different_steps": 50 * k,
          "ensemble_verdict:drift": 100 * k, "ensemble_verdict:warning": 20 * k, "explicit_resets": 30 * k, "selector_calls_checked": 5000 * k}
     for e in ("SimpleMajorityElection", "MinimumApprovalElection", "OrderedApprovalElection", "ConfirmedElection", "ProbeElection"):
         t["histories:" + e] = 10 * k
